@@ -26,6 +26,10 @@ def build(repo):
     g.add('global size_of usize == 8;\n')
     enums, ver = av_enums(repo)
     g.add(enums); g.add('use av_data::pixel::{ColorPrimaries, MatrixCoefficients, TransferCharacteristic};\n')
+    add(repo, g)
+    return g
+
+def add(repo, g):
     esrc = RustSrc(os.path.join(repo, 'src/errors.rs'))
     g.add('#[derive(Clone, Copy, PartialEq, Eq)]\n' + strip_attrs_and_docs(esrc.get(esrc.find('enum', 'CreationError'))))
     g.add(SPEC)
@@ -65,4 +69,3 @@ def build(repo):
             parts.append(apply_contract(txt, c, g.dropped))
         g.add(f'impl {ty} {{\n' + '\n'.join(parts) + '\n}\n')
     g.dropped.append('R-pub: struct fields made pub; data_mut (returns &mut [[f32;3]] of the Vec: length cannot change) is not extracted')
-    return g
